@@ -14,7 +14,7 @@ EXPLANATION = (
     'size limit) cells under the size model 1 + 40 per pair, emits all heads when unlimited (authors sharing a timestamp '
     'are all kept) and otherwise the longest newest-first prefix that fits; (R4) document removal erases the heads (shared '
     'with C16.R1); (R5) the heads rebuilt by migration 001 and maintained by entry_put, both evaluated over an abstract '
-    'records table, are the greatest (timestamp, key) per (namespace, author) with ties resolved alike (shared with C18.R2). (R6) the store actor forwards HasNewsForUs one to one (the store-actor handler evaluated with the fields of the request as named tokens and gates / store / replica calls answered by an oracle, each step also failing in turn: the own fields of the request reach the core function in order on the addressed document, nothing is carried out after a failed step, the reply is the result of that function; the SyncHandle method evaluated: one request of its own kind, addressed to its namespace argument, each field one of its own parameters, the reply of the actor returned). (R7) the live actor handler of gossiped head reports evaluated on (syncing, decodable, verdict of has_news_for_us): one request to the sender of the report, for the document it names, exactly when the store flags the decoded heads as news. (R8) the scan behind the head queries (LatestIterator::new) evaluated on concrete document ids and decided on sample rows: exactly the head rows of the document asked about. (R9) = the heads clause of C01.R3: the heads reported after a session cover every received entry. NOT decided: exact bytes kept under a limit.'
+    'records table, are the greatest (timestamp, key) per (namespace, author) with ties resolved alike (shared with C18.R2). (R6) the store actor forwards HasNewsForUs one to one (the store-actor handler evaluated with the fields of the request as named tokens and gates / store / replica calls answered by an oracle, each step also failing in turn: the own fields of the request reach the core function in order on the addressed document, nothing is carried out after a failed step, the reply is the result of that function; the SyncHandle method evaluated: one request of its own kind, addressed to its namespace argument, each field one of its own parameters, the reply of the actor returned). (R7) the live actor handler of gossiped head reports evaluated on (syncing, decodable, verdict of has_news_for_us): one request to the sender of the report, for the document it names, exactly when the store flags the decoded heads as news. (R8) the scan behind the head queries (LatestIterator::new) evaluated on concrete document ids and decided on sample rows: exactly the head rows of the document asked about. (R9) = the heads clause of C01.R3: the heads reported after a session cover every received entry. (R10) the file-format migration carries the heads table and the records. NOT decided: exact bytes kept under a limit.'
 )
 ASSUMPTIONS = ["redb tables are identified by their key/value types", "postcard size computation trusted"]
 
@@ -443,6 +443,13 @@ def r9(ctx):
     ctx.floor("C13.R9", 1)
 
 
+def r10(ctx):
+    """the heads table of a store written in the older file format survives the format migration that runs on open"""
+    from . import redbmig
+    redbmig.check(ctx, "C13.R10", only={"latest-by-author-1", "records-1"})
+    ctx.floor("C13.R10", 1)
+
+
 def run(ctx):
     ctx.run_rule("C13.R1", r1)
     ctx.run_rule("C13.R2", r2)
@@ -453,3 +460,4 @@ def run(ctx):
     ctx.run_rule("C13.R7", r7)
     ctx.run_rule("C13.R8", r8)
     ctx.run_rule("C13.R9", r9)
+    ctx.run_rule("C13.R10", r10)
